@@ -10,7 +10,11 @@ package transaction
 //@   requires R != nil && S != nil && Vb != nil && Vb.val >= 0
 //@   ensures recid: result1 == nil ==> old(Vb.val) == 27 || old(Vb.val) == 28
 //@   ensures rs: result1 == nil ==> 1 <= old(R.val) && old(R.val) < N && 1 <= old(S.val) && old(S.val) <= div(N, 2)
+//@   # ASSUMED (not proved: ECDSA recovery and Keccak are uninterpreted): the recovered address is a function of the inputs
+//@   ensures [assumed] det: result1 == nil ==> result0 == recovered(sighash, old(R.val), old(S.val), old(Vb.val))
 //@   modifies nothing
+//@ ghost recovered(h types.Hash, r int, s int, v int) types.Address
+//@ ghost hashOf(tx *Transaction) types.Hash
 
 //@ # ---------------------------------------------------------------- transaction execution gate (C03, C04, C26, C05)
 //@ ghost decodedTx(e *Executor, raw []byte) *Transaction
@@ -22,17 +26,24 @@ package transaction
 //@   ensures result1 == nil ==> result0 != nil && result0 == decodedTx(e, buf) && result0.decodedData != nil
 //@   ensures result1 == nil && result0.SignatureType == SigTypeMulti ==> result0.multisig != nil && forall i int :: 0 <= i && i < len(result0.multisig.Signatures) ==> result0.multisig.Signatures[i].R != nil && result0.multisig.Signatures[i].S != nil && result0.multisig.Signatures[i].V != nil && result0.multisig.Signatures[i].V.val >= 0
 //@   modifies nothing
+//@ # senderKnown(tx): the sender has been recovered successfully before (cached in tx.sender for single signatures, the
+//@ # multisig address otherwise): later calls cannot fail
+//@ ghost senderKnown(tx *Transaction) bool
 //@ func (*Transaction).Sender
 //@   trusted
-//@   ensures result1 == nil ==> result0 == senderOf(tx)
-//@   modifies nothing
+//@   ensures result1 == nil ==> result0 == senderOf(tx) && senderKnown(tx)
+//@   ensures old(senderKnown(tx)) ==> result1 == nil
+//@   modifies senderKnown(tx)
 //@ func (*Transaction).Hash
 //@   trusted
+//@   ensures result == hashOf(tx)
 //@   modifies nothing
-//@ ghost commissionCoinOf(tx *Transaction) types.CoinID
+//@ # the coin a transaction's fee is paid in: the gas coin, except sell-all types, which pay in the coin being sold
+//@ ghost dataCoin(d dataCommission) types.CoinID
 //@ func (*Transaction).CommissionCoin
-//@   trusted
-//@   ensures result == commissionCoinOf(tx)
+//@   serves C27 C03
+//@   requires tx != nil
+//@   ensures coin: result == ((tx.Type == TypeSellAllSwapPool || tx.Type == TypeSellAllCoin) ? dataCoin(tx.decodedData) : tx.GasCoin)
 //@   modifies nothing
 //@ func (*Transaction).Gas
 //@   trusted
@@ -42,6 +53,7 @@ package transaction
 //@ func CheckSwap
 //@   trusted
 //@   ensures resp != nil ==> resp.Code != 0
+//@   ensures res != nil ==> fresh(res)
 //@   modifies nothing
 //@ # C27: a commission paid in a custom coin uses the cheaper of the pool route and the bancor-reserve route.
 //@ # The two quotes are abstract (what the quoting helpers return in this state); the choice between them is proved.
@@ -97,9 +109,10 @@ package transaction
 //@ func iface Data.TxType
 //@   modifies nothing
 //@ func iface Data.CommissionData
-//@   ensures result != nil && result.val == typePrice(recv, arg0)
+//@   ensures result != nil && result.val == typePrice(recv, arg0) && result.val >= 0
 //@   modifies nothing
 //@ func iface dataCommission.commissionCoin
+//@   ensures result == dataCoin(recv)
 //@   modifies nothing
 //@ ghost symbolPrice(d symbolCreator, p *commission.Price) int
 //@ func iface symbolCreator.PayForSymbol
@@ -113,22 +126,31 @@ package transaction
 //@ # delivered to the real state sets the sender's nonce to the transaction's nonce. Implementations under
 //@ # verification are checked against it; the others are assumed to satisfy it (listed in the evidence).
 //@ func iface Data.Run
-//@   let accs = typeis(arg1, "*state.CheckState") ? as(arg1, "*state.CheckState").state.Accounts : as(arg1, "*state.State").Accounts
+//@   let deliver = typeis(arg1, "*state.State")
+//@   let st = typeis(arg1, "*state.CheckState") ? as(arg1, "*state.CheckState").state : as(arg1, "*state.State")
+//@   let accs = st.Accounts
+//@   let tbl = curPrices(st.Commission)
+//@   let txcc = (arg0.Type == TypeSellAllSwapPool || arg0.Type == TypeSellAllCoin) ? dataCoin(arg0.decodedData) : arg0.GasCoin
 //@   requires arg0 != nil && arg2 != nil && arg4 != nil
-//@   let cm = typeis(arg1, "*state.CheckState") ? as(arg1, "*state.CheckState").state.Commission : as(arg1, "*state.State").Commission
-//@   let tbl = curPrices(cm)
+//@   requires sender: senderKnown(arg0)
+//@   requires ctx: typeis(arg1, "*state.CheckState") || typeis(arg1, "*state.State")
+//@   requires ctxcheck: typeis(arg1, "*state.CheckState") ==> as(arg1, "*state.CheckState") != nil
+//@   requires modules: st != nil && st.Accounts != nil && st.Coins != nil && st.Commission != nil && st.Accounts.bus != nil && (deliver ==> st.Coins.bus != nil)
 //@   # C27: the price handed to every Run is gas price x (type price + bytes x byte price) when the table is in the base coin
 //@   requires [C27] feeprice: tbl.Coin == 0 ==> arg4.val == arg0.GasPrice * (typePrice(recv, tbl) + (len(arg0.Payload) + len(arg0.ServiceData)) * tbl.PayloadByte.val)
-//@   # C27: an accepted, delivered transaction adds exactly that price to the block's reward pool (proved for the
-//@   # implementations under contract, assumed for the others)
-//@   ensures [C27] rewarded: result.Code == 0 && typeis(arg1, "*state.State") ==> arg2.val == old(arg2.val) + arg4.val
-//@   ensures rejected: result.Code != 0 ==> bal == old(bal) && nonce == old(nonce) && ledgerDelta == old(ledgerDelta) && ledgerVolume == old(ledgerVolume) && coinVolume == old(coinVolume) && coinReserve == old(coinReserve) && swapAbs == old(swapAbs) && otherState == old(otherState) && arg2.val == old(arg2.val)
-//@   ensures checkonly: typeis(arg1, "*state.CheckState") ==> bal == old(bal) && nonce == old(nonce) && ledgerDelta == old(ledgerDelta) && ledgerVolume == old(ledgerVolume) && coinVolume == old(coinVolume) && coinReserve == old(coinReserve) && swapAbs == old(swapAbs) && otherState == old(otherState) && arg2.val == old(arg2.val)
-//@   ensures accepted: result.Code == 0 && typeis(arg1, "*state.State") ==> nonce(accs, senderOf(arg0)) == arg0.Nonce
+//@   requires feesign: arg4.val >= 0 && arg4 != arg2
+//@   # C27: an accepted, delivered transaction whose fee is paid in the base coin adds exactly that price to the block's
+//@   # reward pool (proved for the implementations under contract, assumed for the others)
+//@   ensures [C27] rewarded: result.Code == 0 && deliver && txcc == 0 ==> arg2.val == old(arg2.val) + old(arg4.val)
+//@   ensures [C03] rejected: result.Code != 0 ==> bal == old(bal) && nonce == old(nonce) && ledgerDelta == old(ledgerDelta) && ledgerVolume == old(ledgerVolume) && coinVolume == old(coinVolume) && coinReserve == old(coinReserve) && swapAbs == old(swapAbs) && otherState == old(otherState) && arg2.val == old(arg2.val)
+//@   ensures [C03] checkonly: !deliver ==> bal == old(bal) && nonce == old(nonce) && ledgerDelta == old(ledgerDelta) && ledgerVolume == old(ledgerVolume) && coinVolume == old(coinVolume) && coinReserve == old(coinReserve) && swapAbs == old(swapAbs) && otherState == old(otherState) && arg2.val == old(arg2.val)
+//@   ensures [C04,C03] accepted: result.Code == 0 && deliver ==> nonce(accs, senderOf(arg0)) == arg0.Nonce
+//@   # C05: only the sender's own balances can go down (a check redemption also debits the check's issuer)
+//@   ensures [C05] onlysender: arg0.Type != TypeRedeemCheck ==> forall c types.CoinID, a types.Address :: a != senderOf(arg0) ==> bal(accs, c, a) >= old(bal(accs, c, a))
 //@   modifies bal, nonce, ledgerDelta, ledgerVolume, coinVolume, coinReserve, swapAbs, otherState, arg2.val, accountsCache, coinsCache, commissionCache
 
 //@ func (*ExecutorV3).RunTx
-//@   serves C04 C03 C26 C27
+//@   serves C04 C03 C26 C27 C05
 //@   let tx = decodedTx(e.Executor, rawTx)
 //@   let snd = senderOf(tx)
 //@   let deliver = typeis(context, "*state.State")
@@ -144,16 +166,25 @@ package transaction
 //@   ensures [C03] checkmode: !deliver ==> bal == old(bal) && nonce == old(nonce) && coinVolume == old(coinVolume) && coinReserve == old(coinReserve) && swapAbs == old(swapAbs) && otherState == old(otherState) && rewardPool.val == old(rewardPool.val)
 //@   let lateFailure = deliver && (tx.Type == TypeCreateCoin || tx.Type == TypeCreateToken) && nonce(accs, snd) == tx.Nonce
 //@   ensures [C03,C04] failednonce: result.Code != 0 ==> (nonce == old(nonce) && otherState == old(otherState)) || lateFailure
-//@   let cc = commissionCoinOf(tx)
+//@   let cc = (tx.Type == TypeSellAllSwapPool || tx.Type == TypeSellAllCoin) ? dataCoin(tx.decodedData) : tx.GasCoin
 //@   ensures [C03] failedbalances: result.Code != 0 ==> select(bal, accs) == store(select(old(bal), accs), cc, select(select(bal, accs), cc)) || lateFailure
+//@   # C05: a multisig transaction is accepted only with signatures of pairwise distinct signers
+//@   let sigs = tx.multisig.Signatures
+//@   ensures [C05] distinctsigners: result.Code == 0 && tx.SignatureType == SigTypeMulti ==> old(forall j int, k int :: 0 <= j && j < k && k < len(sigs) ==> recovered(hashOf(tx), sigs[j].R.val, sigs[j].S.val, sigs[j].V.val) != recovered(hashOf(tx), sigs[k].R.val, sigs[k].S.val, sigs[k].V.val))
+//@   # C05: only the sender's balances can go down (for a check redemption also the issuer's, who pays the fee)
+//@   ensures [C05] onlypayer: tx.Type != TypeRedeemCheck ==> forall c types.CoinID, a types.Address :: a != snd ==> bal(accs, c, a) >= old(bal(accs, c, a))
+//@   loop 0 invariant bounds: -1 <= rangeindex && rangeindex < len(sigs)
+//@   loop 0 invariant used: forall k int :: 0 <= k && k <= rangeindex ==> usedAccounts[recovered(hashOf(tx), sigs[k].R.val, sigs[k].S.val, sigs[k].V.val)]
+//@   loop 0 invariant distinct: forall j int, k int :: 0 <= j && j < k && k <= rangeindex ==> recovered(hashOf(tx), sigs[j].R.val, sigs[j].S.val, sigs[j].V.val) != recovered(hashOf(tx), sigs[k].R.val, sigs[k].S.val, sigs[k].V.val)
 //@   loop 1 invariant frame: nonce == old(nonce) && otherState == old(otherState) && select(bal, accs) == store(select(old(bal), accs), cc, select(select(bal, accs), cc))
+//@   loop 1 invariant others: forall a types.Address :: bal(accs, cc, a) >= old(bal(accs, cc, a))
 //@   loop 1 invariant payer: bal(accs, cc, intruder) >= balance.val
 //@   let cmm = typeis(context, "*state.CheckState") ? as(context, "*state.CheckState").state.Commission : as(context, "*state.State").Commission
 //@   let tbl = curPrices(cmm)
 //@   let fee = tx.GasPrice * (typePrice(tx.decodedData, tbl) + (len(tx.Payload) + len(tx.ServiceData)) * tbl.PayloadByte.val)
 //@   let creates = tx.Type == TypeCreateCoin || tx.Type == TypeCreateToken
-//@   ensures [C27] rewarded: result.Code == 0 && deliver && tbl.Coin == 0 && !creates ==> rewardPool.val == old(rewardPool.val) + old(fee)
-//@   ensures [C27] symbolburned: result.Code == 0 && deliver && tbl.Coin == 0 && creates ==> rewardPool.val == old(rewardPool.val) + old(fee) - old(tx.GasPrice * symbolPrice(tx.decodedData, tbl))
+//@   ensures [C27] rewarded: result.Code == 0 && deliver && tbl.Coin == 0 && cc == 0 && !creates ==> rewardPool.val == old(rewardPool.val) + old(fee)
+//@   ensures [C27] symbolburned: result.Code == 0 && deliver && tbl.Coin == 0 && cc == 0 && creates ==> rewardPool.val == old(rewardPool.val) + old(fee) - old(tx.GasPrice * symbolPrice(tx.decodedData, tbl))
 //@   ensures [C26] chargedonce: deliver && bal != old(bal) ==> nonce(accs, snd) == tx.Nonce
 
 //@ # ---------------------------------------------------------------- price table lookups (C27)
@@ -437,7 +468,9 @@ package transaction
 //@   serves C27
 //@   requires tx != nil && price != nil && price.PayloadByte != nil && tx.decodedData != nil
 //@   requires nowrap: len(tx.Payload) + len(tx.ServiceData) <= 9223372036854775807
+//@   requires bytesign: price.PayloadByte.val >= 0
 //@   ensures formula: result != nil && result.val == typePrice(tx.decodedData, price) + (len(tx.Payload) + len(tx.ServiceData)) * price.PayloadByte.val
+//@   ensures sign: result.val >= 0
 //@   modifies nothing
 //@ func (*Transaction).MulGasPrice
 //@   serves C27
@@ -445,3 +478,15 @@ package transaction
 //@   ensures product: result != nil && result.val == tx.GasPrice * price.val && fresh(result)
 //@   ensures sign: price.val >= 0 ==> result.val >= 0
 //@   modifies nothing
+
+//@ # ---------------------------------------------------------------- Run implementations checked against the interface contract
+//@ func (SendData).Run
+//@   serves C03 C04 C05 C27 C02
+//@   implements iface Data.Run
+//@   assumes wf: data.Value != nil && data.Value.val >= 0 && data.Value != rewardPool
+//@   assumes typed: tx.Type == TypeSend
+//@   covers delivered: result.Code == 0 && deliver && tx.GasCoin == 0 && data.Coin != 0
+//@   let snd = senderOf(tx)
+//@   ensures [C02] transferred: result.Code == 0 && deliver && tx.GasCoin == 0 && data.Coin != 0 && data.To != snd ==> bal(accs, data.Coin, data.To) == old(bal(accs, data.Coin, data.To)) + data.Value.val && bal(accs, data.Coin, snd) == old(bal(accs, data.Coin, snd)) - data.Value.val && bal(accs, 0, snd) == old(bal(accs, 0, snd)) - old(price.val)
+//@   loop 0 invariant grows: forall c types.CoinID, a types.Address :: bal(accs, c, a) >= old(bal(accs, c, a))
+//@   loop 0 invariant frame: nonce == old(nonce) && otherState == old(otherState) && rewardPool.val == old(rewardPool.val)
